@@ -99,6 +99,8 @@ def pp(c, ind=2):
     if isinstance(c, FindRet):
         return "(List.findSome? (fun %s => %s) %s)" % (c.elem, pp(c.body, ind + 2), c.lst)
     if isinstance(c, Lam):
+        if c.kind in ("any", "all"):
+            return "(List.%s %s (fun %s => %s))" % (c.kind, c.lst, c.elem, pp(c.body, ind + 2))
         fn = {"filter": "List.filter", "map": "List.map"}[c.kind]
         return "(%s (fun %s => %s) %s)" % (fn, c.elem, pp(c.body, ind + 2), c.lst)
     raise TypeError("pp of impure computation %r" % c)
@@ -127,7 +129,7 @@ def pm(c, ind=2):
     if isinstance(c, FindRet):
         return "(Rt.findRet %s (fun %s => %s))" % (c.lst, c.elem, pm(c.body, ind + 2))
     if isinstance(c, Lam):
-        fn = {"filter": "Rt.filterM", "map": "Rt.mapM"}[c.kind]
+        fn = {"filter": "Rt.filterM", "map": "Rt.mapM", "any": "Rt.anyM", "all": "Rt.allM"}[c.kind]
         return "(%s %s (fun %s => %s))" % (fn, c.lst, c.elem, pm(c.body, ind + 2))
     raise TypeError(c)
 
